@@ -581,4 +581,21 @@ def runCallsX (fuel : Nat) (w : XW) : List XCall → XW × List (List XO)
       match runCallsX fuel w' cs with
       | (w'', rss) => (w'', rs :: rss)
 
+/-! ### `ChannelFailures` and `Bus.log` as data -/
+
+/-- `ChannelFailures`: the exception instances collected so far (`handle_exception` appends the
+    current one, `get_instances` returns a copy, `__bool__` = non-empty). -/
+structure CF where
+  excs : List Nat := []
+  deriving Repr, Inhabited
+
+def CF.handle (c : CF) (e : Nat) : CF := ⟨c.excs ++ [e]⟩
+def CF.truthy (c : CF) : Bool := !c.excs.isEmpty
+def CF.instances (c : CF) : List Nat := c.excs
+
+/-- `Bus.log(msg, level, traceback)`: the arguments the `log` listeners receive; `excText` is the
+    formatted current exception. -/
+def logArgs (msg : List Char) (level : Nat) (tb : Bool) (excText : List Char) : List Char × Nat :=
+  (if tb then msg ++ '\n' :: excText else msg, level)
+
 end CpModel.Bus
